@@ -17,7 +17,7 @@ import subprocess
 import sys
 
 VERIF = os.path.dirname(os.path.dirname(os.path.abspath(__file__)))
-WT = "/tmp/mwt"
+WT = os.environ.get("MUT_WT", "/tmp/mwt")
 CRATE_DIRS = {"wow-mpq": "file-formats/archives/wow-mpq", "wow-m2": "file-formats/graphics/wow-m2", "wow-wmo": "file-formats/graphics/wow-wmo",
               "wow-blp": "file-formats/graphics/wow-blp", "wow-adt": "file-formats/world-data/wow-adt", "wow-wdt": "file-formats/world-data/wow-wdt",
               "wow-wdl": "file-formats/world-data/wow-wdl", "wow-cdbc": "file-formats/database/wow-cdbc", "storm-ffi": "ffi/storm-ffi", "warcraft-rs": "warcraft-rs"}
@@ -42,11 +42,11 @@ def run_demo(mdir, crate):
         head = open(os.path.join(mdir, "demo.rs"), errors="replace").read(3000)
         m = re.search(r"--features[ =]([A-Za-z0-9_,-]+)", head)
         feat = f"--features {m.group(1)}" if m else ""
-        r = sh(f"cd {WT} && cargo test -p {crate} --offline {feat} --test seeded_demo 2>&1 | tail -40", env=env)
+        r = sh(f"cd {WT} && cargo test -p {crate} --offline {feat} --test seeded_demo 2>&1", env=env)
         os.remove(os.path.join(tdir, "seeded_demo.rs"))
         out = clean(r.stdout)
-        ok = "test result: ok" in out and "FAILED" not in out and "error" not in out.split("test result")[0][-400:]
-        compiled = "test result" in out
+        compiled = "test result" in out or "running " in out
+        ok = r.returncode == 0 and "test result: ok" in out
         return ok, compiled, out[-700:]
     for name, runner in (("demo.sh", "bash"), ("demo.py", "python3")):
         if os.path.exists(os.path.join(mdir, name)):
